@@ -79,9 +79,6 @@ class Model:
             raise ValueError("you have to pass either rng or seed, not both")
         elif seed is None:
             self.rng: np.random.Generator = np.random.default_rng(rng)
-            self._rng = (
-                self.rng.bit_generator.state
-            )  # this allows for reproducing the rng
 
             try:
                 self.random = random.Random(rng)
@@ -90,6 +87,8 @@ class Model:
                 seed = int(self.rng.integers(np.iinfo(np.int32).max))
                 self.random = random.Random(seed)
             self._seed = seed  # this allows for reproducing stdlib.random
+            # remembered after the draw above, so that reset_rng() replays what the user saw
+            self._rng = self.rng.bit_generator.state
         elif rng is None:
             self.random = random.Random(seed)
             self._seed = seed  # this allows for reproducing stdlib.random
